@@ -30,6 +30,7 @@ type valActor struct {
 	status   uint8  // genesis status
 	operator int    // client index of the operator account
 	created  bool   // candidate: a create transaction was applied successfully
+	coinbase common.Address // reward address: nobody holds its key, nothing else is ever sent to it
 }
 
 const (
@@ -91,9 +92,12 @@ func newActors(c *kit.Chooser) *actors {
 		} else {
 			v.operator = 4 + (i-a.nGen)%3
 		}
+		// (in the test data the coinbase equals the main address; a separate address keeps the
+		// reward flow apart from everything else)
+		v.coinbase = common.BytesToAddress([]byte{0xcb, 0x00, byte(i + 1)})
 		a.vals = append(a.vals, v)
 		a.names[v.key.Addr] = v.name
-		a.names[v.key.Coinbase] = "CB" + v.name[1:]
+		a.names[v.coinbase] = "CB" + v.name[1:]
 	}
 	a.names[yp.RewardsPoolAddress] = "POOL"
 	a.names[yp.PenaltyTo] = "PENALTY"
@@ -135,7 +139,7 @@ func (a *actors) genesis() *core.Genesis {
 	g := chainkit.MakeGenesis(nil, params.YouV5) // template + funded clients
 	for _, v := range a.vals[:a.nGen] {
 		g.Validators[v.key.Addr] = core.GenesisValidator{
-			Name: v.name, OperatorAddress: a.clients[v.operator].addr, Coinbase: v.key.Coinbase,
+			Name: v.name, OperatorAddress: a.clients[v.operator].addr, Coinbase: v.coinbase,
 			Token: yous(v.stake), MainPubKey: v.key.MainPub, BlsPubKey: v.key.BlsPub,
 			Role: v.role, Status: v.status,
 		}
